@@ -430,6 +430,7 @@ static bool prescan11(const std::string& in, const std::string& enc, std::string
         {
             const bool isNel = !((u16 && c == 0x2028) || (utf8 && c == 0xE2) || gbcp == 0x2028);
             if (isNel && !o.empty() && o.back() == 0xD) o.pop_back();   // CR NEL -> LF
+            else if (!isNel && !o.empty() && o.back() == 0xD) o.back() = 0xA;   // CR LS -> LF LF (the 1.0 parsers would read CR LF as one)
             o.push_back(0xA); i += adv; continue;
         }
         // character references to C0 controls
